@@ -6,7 +6,13 @@ pub enum Ev<Req, Res, E> {
     AcquireOk(int), AcquireClosed, TimedOut(Duration), Release(int),
     Sleep(Duration), Withdraw(bool), Deposit, FutureCreated, Opaque,
 }
+/// unit-specific decisions recorded by the unit's own shims
+pub enum Note { Gate(bool), Record { failure: bool, nanos: nat }, Kernel(int), Budget(bool), Lock }
 pub tracked struct Trace<Req, Res, E> {
+    pub ghost notes: Seq<Note>,
+    pub ghost fb_calls: nat,       // calls of the fallback / backup
+    pub ghost fb_req: Option<Req>,
+    pub ghost fb_done: Option<Result<Res, E>>,
     pub ghost ev: Seq<Ev<Req, Res, E>>,
     pub ghost calls: nat,          // number of InnerCall events
     pub ghost done: nat,           // number of InnerDone events
@@ -22,6 +28,7 @@ pub tracked struct Trace<Req, Res, E> {
 impl<Req, Res, E> Trace<Req, Res, E> {
     pub open spec fn fresh(self) -> bool {
         self.ev.len() == 0 && self.calls == 0 && self.done == 0 && self.held.len() == 0 && self.held.finite() && self.unguarded == 0 && self.slept == 0
+            && self.notes.len() == 0 && self.fb_calls == 0 && self.fb_req is None && self.fb_done is None
             && self.last_req is None && self.last_done is None && !self.admitted && !self.created && self.blocked == 0
     }
 }
